@@ -5,9 +5,11 @@ cd "$(dirname "$0")"
 export CARGO_NET_OFFLINE=true
 (cd harness && cargo build --offline --quiet 2>&1 | grep -v '^warning' | grep -E '^error' -A8 || true)
 test -x harness/target/debug/vharness
-for d in spec/*/; do
-  for f in "$d"*.tla; do
-    java -cp /opt/veriftools/tla/tla2tools.jar:spec/common:spec/quill:"$d" tla2sany.SANY "$f" >/dev/null 2>&1 || { echo "SANY failed on $f"; exit 1; }
-  done
+CP=/opt/veriftools/tla/tla2tools.jar
+V="$(pwd)"
+for d in spec/*/; do CP="$CP:$V/$d"; done
+for f in spec/*/*.tla; do
+  [ -e "$f" ] || continue
+  (cd "$(dirname "$f")" && java -cp "$CP" tla2sany.SANY "$(basename "$f")" >/dev/null 2>&1) || { echo "SANY failed on $f"; exit 1; }
 done
 echo setup ok
